@@ -159,7 +159,9 @@ def rule_I(ck, lib, sk, rid):
             if f_ is not None and d.get("inp") is not None and "incomplete" in d["lost"]:
                 want = pathsum.strip_sites(d["inp"])
                 for (pid2, inp2, t2, oc2) in sk.apps_on_path(d["exit"], f_["ps"]):
-                    if oc2 is True and pid2[0] != "param" and sk.attr(pid2).get("nt") and pathsum.strip_sites(("tproj", ("payload", t2, OK, 0), 0)) == want:
+                    # (the scan itself - a take_while over a class with the newline -, not a whole recogniser that has
+                    # returned: behind a complete string or block nothing is open any more)
+                    if oc2 is True and pid2[0] == "take_while" and sk.attr(pid2).get("nt") and pathsum.strip_sites(("tproj", ("payload", t2, OK, 0), 0)) == want:
                         behind_nt = True
             if not behind_nt:
                 continue
